@@ -10,8 +10,9 @@ class V(object):
 
 
 class Num(V):
-    def __init__(self, rf):
+    def __init__(self, rf, inexact=False):
         self.rf = ep.rf(rf)
+        self.inexact = inexact   # result of a true division / float function (int() is not the identity on it)
 
     def const(self):
         return self.rf.as_const()
